@@ -352,9 +352,9 @@ func runC19(r *core.Run) {
 		}
 		_ = h.pool.Streams(tags...) // re-entrant use of the pool from the hook
 	}))
-	sch.Off = true
+	sch.Off.Store(true)
 	must(h.pool.Run(context.Background()))
-	sch.Off = false
+	sch.Off.Store(false)
 	r.SetCfg("peers", npeers)
 	r.SetCfg("max_queue", h.maxQueue)
 	r.SetCfg("dial", fmt.Sprintf("workers=%d queue=%d", cfg.DialQueueWorkers, cfg.DialQueueSize))
@@ -546,7 +546,7 @@ func runC19(r *core.Run) {
 	if len(h.hung) > 0 {
 		// every sender's deadline passes while the dial to one peer still hangs: workers waiting for that opening
 		// must come back and serve the jobs queued behind them
-		sch.Off = false
+		sch.Off.Store(false)
 		time.Sleep(7 * time.Second)
 		for n := 0; n < 200000 && !r.Aborted(); n++ {
 			var act []string
@@ -608,7 +608,7 @@ func runC19(r *core.Run) {
 	if len(st.Streams) != 0 || len(st.ByPeer) != 0 || len(st.ByTag) != 0 {
 		r.Fail("state-leak", "", "after every stream ended the pool still holds streams=%v byPeer=%v byTag=%v", st.Streams, st.ByPeer, st.ByTag)
 	}
-	sch.Off = true
+	sch.Off.Store(true)
 	_ = h.pool.Close(context.Background())
 	time.Sleep(time.Second)
 	total := 0
